@@ -45,7 +45,7 @@ use std::io::Write;
 use std::panic::{catch_unwind, AssertUnwindSafe};
 use std::sync::atomic::{AtomicU64, Ordering};
 use std::sync::Arc;
-use tokio::io::{AsyncReadExt, AsyncWriteExt, DuplexStream};
+use tokio::io::{AsyncRead, AsyncReadExt, AsyncWriteExt, DuplexStream};
 use tokio::task::JoinHandle;
 
 static PROGRESS: AtomicU64 = AtomicU64::new(0);
@@ -204,6 +204,50 @@ impl World {
                     return Rd::Bad(hex(&f));
                 }
                 return Rd::Eof;
+            }
+            if !c.rbuf.is_empty() {
+                // part of a frame is buffered. The broker writes whole batches of whole packets with
+                // one `write_all` into a pipe with room for all of it, and this runtime is
+                // single-threaded, so a reader never sees half a batch: if nothing more is readable
+                // right now, the rest of this "frame" will never come — the announced length is
+                // wrong / the stream is desynchronised. Reported, not waited for.
+                let more = match c.client.as_mut() {
+                    Some(s) => {
+                        let mut tmp = [0u8; 4096];
+                        let r = std::future::poll_fn(|cx| {
+                            let mut rb = tokio::io::ReadBuf::new(&mut tmp);
+                            match std::pin::Pin::new(&mut *s).poll_read(cx, &mut rb) {
+                                std::task::Poll::Ready(Ok(())) => std::task::Poll::Ready(Some(rb.filled().len())),
+                                std::task::Poll::Ready(Err(_)) => std::task::Poll::Ready(Some(0)),
+                                std::task::Poll::Pending => std::task::Poll::Ready(None),
+                            }
+                        })
+                        .await;
+                        match r {
+                            Some(0) => {
+                                c.eof = true;
+                                true
+                            }
+                            Some(k) => {
+                                c.rbuf.extend_from_slice(&tmp[..k]);
+                                true
+                            }
+                            None => false,
+                        }
+                    }
+                    None => {
+                        c.eof = true;
+                        true
+                    }
+                };
+                if !more {
+                    let f = c.rbuf.split();
+                    c.eof = true;
+                    c.client = None;
+                    let shown = &f[..f.len().min(48)];
+                    return Rd::Bad(format!("{}..({}B,stream-desynchronised)", hex(shown), f.len()));
+                }
+                continue;
             }
             let n = match c.client.as_mut() {
                 Some(s) => s.read_buf(&mut c.rbuf).await,
@@ -647,6 +691,159 @@ fn case_cross(o: &mut Out, id: &str, pv: u8, sv: u8, mask: u32, qos: u8, subqos:
     o.st.nontrivial(&("cross", pv, sv, mask, qos, subqos, subid, alias_max, wildcard));
 }
 
+/// `n` printable bytes (position-dependent, so that a truncation or a shift shows)
+fn pad(n: usize) -> String {
+    (0..n).map(|i| (b'a' + (i % 26) as u8) as char).collect()
+}
+
+/// C20, free form: subscriber on an `sv` listener (optional subscription identifier / alias
+/// maximum), publisher on a `pv` listener sending the given publishes (QoS, topic, payload,
+/// properties CTF); a barrier on both streams after each, so that a frame whose announced length is
+/// wrong shows up as a garbled or missing packet at the latest with the next message
+#[allow(clippy::too_many_arguments)]
+fn case_custom(o: &mut Out, id: &str, pv: u8, sv: u8, subqos: u8, subid: Option<u32>, alias_max: u16, filter: &str, pubs: &[(u8, String, String, String)]) {
+    o.case(id);
+    o.op("new 10 none");
+    let sprops = if sv == 5 && alias_max > 0 { format!("S[34=w{alias_max}]") } else { "N".into() };
+    o.op(&format!("conn 0 {sv} {}", connect_ctf(sv, KA_LONG, "sub", true, &sprops, None, None)));
+    o.op(&format!("send 0 {}", sub_ctf(1, filter, subqos, if sv == 5 { subid } else { None })));
+    o.op("sync 0");
+    o.op(&format!("conn 1 {pv} {}", connect_ctf(pv, KA_LONG, "pub", true, "N", None, None)));
+    for (i, (qos, topic, payload, props)) in pubs.iter().enumerate() {
+        let pkid = if *qos == 0 { 0 } else { (i + 1) as u16 };
+        let props = if pv == 5 { props.as_str() } else { "N" };
+        o.op(&format!("send 1 {}", pub_ctf(*qos, pkid, topic, payload, props)));
+        let rp = o.op("sync 1");
+        let rs = o.op("sync 0");
+        if rp.starts_with("eof") {
+            o.op("join 1");
+        }
+        if rs.starts_with("eof") {
+            o.op("join 0");
+        }
+        if rp.starts_with("eof") || rs.starts_with("eof") {
+            break;
+        }
+    }
+    o.st.tag(&format!("custom-{pv}to{sv}"));
+    o.op("end");
+    o.st.nontrivial(&("custom", id.to_string()));
+}
+
+/// the seven forwardable PUBLISH properties together (everything but a publisher-side
+/// subscription identifier), with two user properties
+const ALL_PROPS: &str = "S[1=b1;2=d100;35=w3;8=s722f74;9=x0102;38=p6b:76;38=p6b32:7632;3=s74657874]";
+
+/// subscription identifier on the SUBSCRIBE x properties on the PUBLISH (x alias, x QoS): the
+/// forward must carry the publisher's properties AND the identifier
+fn subid_cases(out: &mut Out, mine: &mut dyn FnMut() -> bool, thorough: bool) {
+    let prop_sets: Vec<String> = if thorough {
+        (1..256u32).filter(|m| m & 64 == 0).map(props_ctf).chain(std::iter::once(ALL_PROPS.to_string())).collect()
+    } else {
+        vec![ALL_PROPS.to_string(), props_ctf(1), props_ctf(32), props_ctf(128 | 8 | 16), props_ctf(4)]
+    };
+    for (k, props) in prop_sets.iter().enumerate() {
+        for qos in [0u8, 1] {
+            for (alias_max, filter) in [(0u16, "t/#"), (2, "t/a")] {
+                for pv in [5u8, 4] {
+                    if pv == 4 && k > 0 {
+                        continue;
+                    }
+                    if mine() {
+                        let id = format!("sid{pv}5-p{k}-q{qos}-a{alias_max}");
+                        let pubs: Vec<(u8, String, String, String)> =
+                            (0..2).map(|i| (qos, "t/a".to_string(), format!("m{i}"), props.clone())).collect();
+                        run_twice(out, &|o| case_custom(o, &id, pv, 5, 1, Some(7), alias_max, filter, &pubs));
+                    }
+                }
+            }
+        }
+    }
+}
+
+/// sizes at which the variable-byte integers of a frame change width: subscription identifier,
+/// property section, remaining length at 127/128/129 and 16383/16384 (and the identifier also at
+/// 2097151/2097152); each boundary message is followed by a small one
+fn boundary_cases(out: &mut Out, mine: &mut dyn FnMut() -> bool, thorough: bool) {
+    let small = |qos: u8| (qos, "t/a".to_string(), "z".to_string(), "N".to_string());
+    // (a) subscription identifier values
+    for sid in [127u32, 128, 129, 16383, 16384, 2097151, 2097152, 268435455] {
+        for (pv, qos) in [(4u8, 0u8), (5, 1)] {
+            if mine() {
+                let id = format!("bsid{pv}5-{sid}-q{qos}");
+                let props = if pv == 5 { props_ctf(1 | 128) } else { "N".to_string() };
+                let pubs = vec![(qos, "t/a".to_string(), "m0".to_string(), props), small(qos)];
+                run_twice(out, &|o| case_custom(o, &id, pv, 5, 1, Some(sid), 0, "t/a", &pubs));
+            }
+        }
+    }
+    // (b) property section of exactly n bytes towards a v5 subscriber: one user property
+    //     `k` = <L bytes> takes 6 + L bytes, a content type of L bytes 3 + L
+    let mut sections: Vec<usize> = vec![127, 128, 129];
+    if thorough {
+        sections.extend([126, 130, 16383, 16384, 16385]);
+    } else {
+        sections.extend([16383, 16384]);
+    }
+    for n in sections {
+        for (kind, props) in [("u", format!("S[38=p6b:{}]", hx(&pad(n - 6)))), ("c", format!("S[3=s{}]", hx(&pad(n - 3))))] {
+            for (subid, extra) in [(None, 0usize), (Some(7u32), 2)] {
+                // with a subscription identifier 7 the section grows by 2 bytes: shrink the value
+                if n - 6 < extra + 1 {
+                    continue;
+                }
+                let props = if extra == 0 {
+                    props.clone()
+                } else if kind == "u" {
+                    format!("S[38=p6b:{}]", hx(&pad(n - 6 - extra)))
+                } else {
+                    format!("S[3=s{}]", hx(&pad(n - 3 - extra)))
+                };
+                for qos in [0u8, 1] {
+                    if !thorough && qos == 1 && n > 1000 {
+                        continue;
+                    }
+                    if mine() {
+                        let id = format!("bprop55-{kind}{n}-s{}-q{qos}", subid.unwrap_or(0));
+                        let pubs = vec![(qos, "t/a".to_string(), "m0".to_string(), props.clone()), small(qos)];
+                        run_twice(out, &|o| case_custom(o, &id, 5, 5, 1, subid, 0, "t/a", &pubs));
+                    }
+                }
+            }
+        }
+    }
+    // (c) remaining length: PUBLISH QoS 0 to a QoS 0 subscription on topic `t/a` has
+    //     remaining length 5 + payload (3.1.1) / 6 + payload (MQTT 5, no properties);
+    //     with QoS 1 two more
+    let mut lens: Vec<usize> = vec![119, 120, 121, 122, 123, 124, 16375, 16376, 16377, 16378, 16379];
+    if thorough {
+        lens.extend([125, 126, 127, 128, 129, 16380, 16383, 16384]);
+    }
+    for n in lens {
+        for (pv, sv) in [(4u8, 5u8), (5, 5), (5, 4), (4, 4)] {
+            for subqos in [0u8, 1] {
+                if !thorough && n > 1000 && (subqos == 1 || pv != sv) {
+                    continue;
+                }
+                if mine() {
+                    let id = format!("blen{pv}{sv}-{n}-q{subqos}");
+                    let pubs = vec![(subqos, "t/a".to_string(), pad(n), "N".to_string()), small(subqos)];
+                    run_twice(out, &|o| case_custom(o, &id, pv, sv, subqos, None, 0, "t/a", &pubs));
+                }
+            }
+        }
+    }
+    // (d) topic length at the boundary (remaining length 2 + topic + 1 + 1 payload byte = 128 for 124)
+    for n in [122usize, 123, 124, 125] {
+        if mine() {
+            let id = format!("btopic55-{n}");
+            let topic = format!("t/{}", pad(n - 2));
+            let pubs = vec![(0u8, topic, "p".to_string(), "N".to_string()), small(0)];
+            run_twice(out, &|o| case_custom(o, &id, 5, 5, 0, None, 0, "t/#", &pubs));
+        }
+    }
+}
+
 /// how a connection with a will ends
 #[derive(Clone, Copy, Debug, PartialEq)]
 pub enum EndCause {
@@ -679,9 +876,9 @@ fn sync_subs(o: &mut Out, alive: &mut Vec<bool>) {
     }
 }
 
-/// C16 x the will-handler map: a client id the router refuses (here `a/b`) connects twice; the
-/// second attempt panics while holding the will-handler mutex; afterwards a live client with a
-/// will ends abnormally
+/// C16 x the will-handler map (regression): a client id the router refuses (here `a/b`) connects
+/// twice (this used to panic while holding the will-handler mutex and poison it); afterwards a live
+/// client with a will ends abnormally and its will must be published
 fn case_poison_will(o: &mut Out, id: &str, wv: u8, sv: u8) {
     o.case(id);
     o.op("new 10 none");
@@ -795,22 +992,13 @@ fn case_limit(o: &mut Out, id: &str, rng: &mut Rng, max_conn: usize, auth: &str,
     let ids = ["a", "b", "c", "d", "", "x/y", "a"];
     let mut open: Vec<usize> = vec![];
     let mut next = 0usize;
-    // a client id the router refused is not used again here: doing so poisons the listener
-    // (finding F4, covered by the scripted `stale*` / `poison*` cases) and the rest of the history
-    // would only see panics
-    let mut refused: Vec<&str> = vec![];
     for _ in 0..steps {
         let k = rng.weighted(&[5, 2, 2, 1]);
         match k {
             0 => {
                 let ver = if rng.chance(1, 2) { 4u8 } else { 5 };
-                let mut cid = *rng.pick(&ids);
-                if refused.contains(&cid) {
-                    cid = "c";
-                    if refused.contains(&cid) {
-                        cid = "";
-                    }
-                }
+                // (client ids the router refused earlier are used again on purpose)
+                let cid = *rng.pick(&ids);
                 let clean = cid.is_empty() || rng.chance(2, 3);
                 let login = match (auth, rng.below(4)) {
                     ("none", 0) => Some(("u", "p")),
@@ -823,12 +1011,7 @@ fn case_limit(o: &mut Out, id: &str, rng: &mut Rng, max_conn: usize, auth: &str,
                 if r.starts_with("connack") {
                     open.push(next);
                 } else {
-                    let j = o.op(&format!("join {next}"));
-                    // refused after authentication (by the router): the handler of `cid` is stale now
-                    let authed = auth == "none" || login == Some(("u", "p"));
-                    if authed && j == "done" && !cid.is_empty() {
-                        refused.push(cid);
-                    }
+                    o.op(&format!("join {next}"));
                 }
                 next += 1;
             }
@@ -890,7 +1073,8 @@ fn case_rejected(o: &mut Out, id: &str, ver: u8, auth: &str, login: Option<(&str
     o.st.nontrivial(&("rejected", ver, auth.to_string(), login.map(|l| l.1.to_string()), cid.to_string(), ka, clean));
 }
 
-/// a client id rejected by the router (limit reached) leaves its will handler behind
+/// regression: a client id refused by the router (limit reached) must not leave a will handler behind
+/// that breaks the next CONNECT with that id
 fn case_stale_handler(o: &mut Out, id: &str, ver: u8) {
     o.case(id);
     o.op("new 1 none");
@@ -926,6 +1110,24 @@ fn sweep(o: &mut Out) {
     forms.push(format!("fwd publish 0 0 1 {} 0 - S[]", hx("t")));
     forms.push(format!("fwd publish 1 2 0 {} 65535 {} S[11=v1;11=v268435455]", hx("t"), hx("m")));
     forms.push(format!("fwd publish 0 1 0 {} 0 {} N", hx("t"), hx("m")));
+    // sizes at which a variable-byte integer changes width: subscription identifier, property
+    // section, remaining length, topic
+    for sid in [127u32, 128, 129, 16383, 16384, 2097151, 2097152, 268435455] {
+        forms.push(format!("fwd publish 0 1 0 {} 7 {} S[11=v{sid}]", hx("t/a"), hx("m")));
+        forms.push(format!("fwd publish 0 0 0 {} 0 {} S[1=b1;11=v7;11=v{sid};3=s74657874]", hx("t/a"), hx("m")));
+    }
+    for n in [126usize, 127, 128, 129, 130, 16383, 16384, 16385] {
+        forms.push(format!("fwd publish 0 1 0 {} 7 {} S[38=p6b:{}]", hx("t/a"), hx("m"), hx(&pad(n - 6))));
+        forms.push(format!("fwd publish 0 0 0 {} 0 {} S[3=s{}]", hx("t/a"), hx("m"), hx(&pad(n - 3))));
+        forms.push(format!("fwd publish 0 0 0 {} 0 {} S[11=v7;3=s{}]", hx("t/a"), hx("m"), hx(&pad(n - 5))));
+    }
+    for n in [119usize, 120, 121, 122, 123, 124, 125, 16375, 16376, 16377, 16378, 16379, 16380] {
+        forms.push(format!("fwd publish 0 0 0 {} 0 {} N", hx("t/a"), hx(&pad(n))));
+        forms.push(format!("fwd publish 0 1 0 {} 9 {} N", hx("t/a"), hx(&pad(n))));
+    }
+    for n in [121usize, 122, 123, 124, 125, 126] {
+        forms.push(format!("fwd publish 0 0 0 {} 0 {} N", hx(&format!("t/{}", pad(n - 2))), hx("p")));
+    }
     for sp in [0, 1] {
         forms.push(format!("ack connack {sp} Success S[34=w4096]"));
         forms.push(format!("ack connack {sp} Success S[34=w4096;18=s72756d717474]"));
@@ -1037,6 +1239,9 @@ fn run_inner(o: &Opts) {
         let mut out = Out { w: &mut *w, st: &mut st, stack: Stack::new(), transcript: vec![] };
         match profile.as_str() {
             "c20" => {
+                // first (small cases, and the driver's report budget goes to them first)
+                subid_cases(&mut out, &mut mine, thorough);
+                boundary_cases(&mut out, &mut mine, thorough);
                 for (pv, sv) in [(4u8, 4u8), (4, 5), (5, 4), (5, 5)] {
                     let masks: Vec<u32> = if pv == 5 { (0..256).collect() } else { vec![0] };
                     for mask in masks {
